@@ -1781,8 +1781,12 @@ def constructor_to_replace(trees: T.Dict[str, ast.Module], tree: ast.Module, unc
             self.generic_visit(call)
             name = call.func.attr if isinstance(call.func, ast.Attribute) else call.func.id if isinstance(call.func, ast.Name) else None
             fields = records.get(name or "")
-            if not fields or call.args or any(k.arg is None for k in call.keywords) or sorted(k.arg for k in call.keywords) != sorted(fields):
+            if not fields or any(isinstance(a, ast.Starred) for a in call.args) or any(k.arg is None for k in call.keywords) or len(call.args) > len(fields):
                 return call
+            kws = [ast.keyword(arg=f, value=a) for f, a in zip(fields, call.args)] + list(call.keywords)          # positional arguments are the leading fields
+            if sorted(k.arg for k in kws) != sorted(fields):
+                return call
+            call = ast.copy_location(ast.Call(func=call.func, args=[], keywords=kws), call)
             src: T.Dict[str, int] = {}
             for k in call.keywords:
                 if isinstance(k.value, ast.Attribute) and isinstance(k.value.value, ast.Name) and k.value.attr == k.arg:
